@@ -295,9 +295,21 @@ func (d *decorator) unique(label string) string {
 	return fmt.Sprintf("vx-%s-%d", w, d.n)
 }
 
+// chance is true with probability eighths/8.  rapid's integer generators are
+// biased towards small values, so three fair bools are combined instead; all
+// false (what shrinking aims for) means "no".
+func chance(t *rapid.T, label string, eighths int) bool {
+	v := 0
+	for i := 0; i < 3; i++ {
+		if rapid.Bool().Draw(t, label) {
+			v |= 1 << i
+		}
+	}
+	return v >= 8-eighths
+}
+
 func (d *decorator) pct(label string, p int) bool {
-	// a draw of 0 (what shrinking aims for) means "no"
-	return rapid.IntRange(0, 99).Draw(d.t, label) >= 100-p
+	return chance(d.t, label, (p+6)/12)
 }
 
 func (d *decorator) fields(fs []shape.Field, underAlias bool) {
@@ -339,7 +351,7 @@ func (d *decorator) fields(fs []shape.Field, underAlias bool) {
 		if d.pct("has_desc", 10) {
 			tags = append(tags, `dialsdesc:"some help text"`)
 		}
-		if d.pct("has_inert_alias", 5) {
+		if d.pct("has_inert_alias", 12) {
 			tags = append(tags, `dialsyamlalias:"inert"`)
 		}
 		f.Tag = strings.Join(tags, " ")
@@ -440,7 +452,7 @@ func genCase(t *rapid.T, random bool) Case {
 		}
 	}
 	// fills
-	pct := []int{0, 30, 30, 60, 85, 100, -1, -1}[rapid.IntRange(0, 7).Draw(t, "fill_density")]
+	pct := []int{0, 2, 3, 5, 7, 8, -1, -1}[rapid.IntRange(0, 7).Draw(t, "fill_density")]
 	var fillable []originLeaf
 	for _, ol := range md.origins {
 		if ol.fillable {
@@ -465,7 +477,7 @@ func genCase(t *rapid.T, random bool) Case {
 		if ol.path == single {
 			continue
 		}
-		if rapid.IntRange(0, 99).Draw(t, "fill") >= 100-pct {
+		if chance(t, "fill", pct) {
 			c.Fill = append(c.Fill, FillEntry{Path: ol.path, Seed: rapid.Uint64Range(1, 1<<40).Draw(t, "seed")})
 		}
 	}
